@@ -25,6 +25,12 @@ pub fn mix(seed: u64, tag: &str, i: u64) -> u64 {
 }
 
 impl Rng {
+    pub fn state(&self) -> [u64; 4] {
+        self.s
+    }
+    pub fn from_state(s: [u64; 4]) -> Rng {
+        Rng { s }
+    }
     pub fn new(seed: u64) -> Rng {
         let mut x = seed;
         let s = [
